@@ -37,58 +37,64 @@ func gv12(w *World, r *Report) {
 	if fn == nil {
 		return
 	}
-	get := "phi(recv.proposalLedger.Get|recv.proposalLedger.GetFinality)"
-	P := "p0.Tx.Payload.(*types.TrxPayloadProposal)#0"
-	V := "p0.Tx.Payload.(*types.TrxPayloadVoting)#0"
-	prop := get + "(" + V + ".TxHash.Array32())#0"
-	end := "(" + P + ".StartVotingHeight + " + P + ".VotingPeriodBlocks)"
-	type gd struct{ key, cond, ok, bad string }
+	// Each guard is stated as the FACT that violates it; under that fact (and the
+	// tx type) the validation must have no successful path. Conditions are matched
+	// as normalised atoms over operand patterns, so the spelling of a guard
+	// (De Morgan, merged ifs, Compare/Equal, early returns, helpers) is free.
+	PP := `TrxPayloadProposal\)#0`
+	VV := `TrxPayloadVoting\)#0`
+	led := `proposalLedger\.(Get|GetFinality)`
+	type gd struct {
+		key     string
+		fact    atom
+		ok, bad string
+	}
 	check := func(rule string, typ int64, gs []gd) {
+		base := w.evalTxCond(txAbs{typ: typ})
+		// sanity: without any fact the validation can succeed for this type
+		if o := w.runUnder(fn, base, nil); !o.complete || o.ok == 0 {
+			r.Undecided(rule, fmt.Sprintf("ValidateTrx:type-%d", typ), "no successful validation path found for this transaction type", fnSite(w, fn))
+			return
+		}
 		for _, g := range gs {
-			found := w.FindGuards(fn, func(c string) bool { return c == g.cond })
-			// the same condition may guard both tx types (zero receiver): pick the one on this type's paths
-			okAny := false
-			n := 0
-			for _, f := range found {
-				if o, k := w.okPathsPassGuard(fn, w.evalTxCond(txAbs{typ: typ}), f); o && k > 0 {
-					okAny, n = true, k
-				}
-			}
-			if okAny {
-				r.OK(rule, "ValidateTrx:"+g.key, fmt.Sprintf("%s (on all %d success paths of this validation)", g.ok, n), fnSite(w, fn))
+			ok, why := w.failsUnder(fn, base, g.fact)
+			if ok {
+				r.OK(rule, "ValidateTrx:"+g.key, g.ok+" ("+why+" when "+g.fact.String()+")", fnSite(w, fn))
 			} else {
-				r.Violate(rule, "ValidateTrx:"+g.key, g.bad, nil, fnSite(w, fn))
+				r.Violate(rule, "ValidateTrx:"+g.key, g.bad+": "+why+" when "+g.fact.String(), nil, fnSite(w, fn))
 			}
 		}
 	}
 	check("Gv-1", 4, []gd{
-		{"proposal:to-zero", "(bytes.Compare(p0.Tx.To, types.ZeroAddress()) != 0)", "a proposal must be addressed to the zero address", "a proposal addressed to a non-zero address passes validation"},
-		{"proposal:by-validator", "(p0.StakeHandler.IsValidator(p0.Tx.From) == false)", "only a current validator may propose", "a non-validator can submit a proposal"},
-		{"proposal:payload-type", "!p0.Tx.Payload.(*types.TrxPayloadProposal)#1", "wrong payload type is refused", "a proposal with a wrong payload type is not refused"},
-		{"proposal:no-duplicate", "(" + get + "(p0.TxHash.Array32())#0 != nil)", "an existing proposal with the same key is refused", "a duplicate proposal key is accepted (it would overwrite the votes)"},
-		{"proposal:start-in-future", "(" + P + ".StartVotingHeight <= p0.Height)", "voting must start after the current height", "a proposal whose voting starts now or in the past is accepted"},
-		{"proposal:period-max", "(" + P + ".VotingPeriodBlocks > recv.GovParams.MaxVotingPeriodBlocks())", "period above the governance maximum is refused", "a voting period above the governance maximum is accepted"},
-		{"proposal:period-min", "(" + P + ".VotingPeriodBlocks < recv.GovParams.MinVotingPeriodBlocks())", "period below the governance minimum is refused", "a voting period below the governance minimum is accepted"},
-		{"proposal:no-overflow", "(" + P + ".StartVotingHeight > " + end + ")", "start + period must not overflow", "start + period may overflow"},
-		{"proposal:applying-after-lazy", "(" + P + ".ApplyingHeight < (" + end + " + recv.GovParams.LazyApplyingBlocks()))", "applying height must be at least end of voting + lazy-applying blocks", "a proposal can take effect earlier than end of voting + lazy-applying blocks"},
-		{"proposal:has-options", "(len(" + P + ".Options) == 0)", "at least one option is required", "a proposal without options is accepted"},
+		{"proposal:to-zero", AR(`^p0\.Tx\.To$`, "!=", `^types\.ZeroAddress\(\)$`), "a proposal must be addressed to the zero address", "a proposal addressed to a non-zero address passes validation"},
+		{"proposal:by-validator", FR(`^p0\.StakeHandler\.IsValidator\(p0\.Tx\.From\)$`), "only a current validator may propose", "a non-validator can submit a proposal"},
+		{"proposal:payload-type", FR(`TrxPayloadProposal\)#1$`), "wrong payload type is refused", "a proposal with a wrong payload type is not refused"},
+		{"proposal:no-duplicate", AR(led+`.*\(p0\.TxHash\.Array32\(\)\)#0\)?$`, "!=", `^nil$`), "an existing proposal with the same key is refused", "a duplicate proposal key is accepted (it would overwrite the votes)"},
+		{"proposal:start-in-future", AR(PP+`\.StartVotingHeight$`, "<=", `^p0\.Height$`), "voting must start after the current height", "a proposal whose voting starts now or in the past is accepted"},
+		{"proposal:period-max", AR(PP+`\.VotingPeriodBlocks$`, ">", `MaxVotingPeriodBlocks\(\)$`), "period above the governance maximum is refused", "a voting period above the governance maximum is accepted"},
+		{"proposal:period-min", AR(PP+`\.VotingPeriodBlocks$`, "<", `MinVotingPeriodBlocks\(\)$`), "period below the governance minimum is refused", "a voting period below the governance minimum is accepted"},
+		{"proposal:no-overflow", AR(`^p0\S*`+PP+`\.StartVotingHeight$`, ">", `^\(\S*StartVotingHeight \+ \S*VotingPeriodBlocks\)$`), "start + period must not overflow", "start + period may overflow"},
+		{"proposal:applying-after-lazy", AR(PP+`\.ApplyingHeight$`, "<", `LazyApplyingBlocks\(\)\)$`), "applying height must be at least end of voting + lazy-applying blocks", "a proposal can take effect earlier than end of voting + lazy-applying blocks"},
+		{"proposal:has-options", AR(`^len\(.*`+PP+`\.Options\)$`, "==", `^0$`), "at least one option is required", "a proposal without options is accepted"},
 	})
 	// parameter proposals: every option must parse
+	P := "p0.Tx.Payload.(*types.TrxPayloadProposal)#0"
 	pg := w.FindGuards(fn, func(c string) bool {
 		return strings.HasPrefix(c, "(json.Unmarshal("+P+".Options[") && strings.HasSuffix(c, ", new(types.GovParams)) != nil)")
 	})
 	okParse := len(pg) == 1 && w.condCanonHolds(pg[0].If.Block(), "("+P+".OptType == 257)", 1)
 	r.Check(okParse, "Gv-1", "ValidateTrx:proposal:options-parse", "every option of a parameter proposal must parse as governance parameters", "options of a parameter proposal are no longer parsed at validation", fnSite(w, fn))
 
+	prop := led + `.*` + VV + `\.TxHash\.Array32\(\)\)#0\)?`
 	check("Gv-2", 5, []gd{
-		{"voting:to-zero", "(bytes.Compare(p0.Tx.To, types.ZeroAddress()) != 0)", "a vote must be addressed to the zero address", "a vote addressed to a non-zero address passes validation"},
-		{"voting:payload-type", "!p0.Tx.Payload.(*types.TrxPayloadVoting)#1", "wrong payload type is refused", "a vote with a wrong payload type is not refused"},
-		{"voting:proposal-exists", "(" + get + "(" + V + ".TxHash.Array32())#1 != nil)", "the proposal must exist in the exec-selected overlay", "a vote for a missing proposal is not refused"},
-		{"voting:is-voter", "(" + prop + ".IsVoter(p0.Tx.From) == false)", "only validators recorded at submission may vote", "an account that is not among the proposal's recorded voters can vote"},
-		{"voting:choice-lower", "(" + V + ".Choice < 0)", "negative choice refused", "a negative choice is accepted"},
-		{"voting:choice-upper", "(" + V + ".Choice >= int32(len(" + prop + ".Options)))", "choice must index an option", "a choice beyond the options is accepted"},
-		{"voting:window-end", "(p0.Height > " + prop + ".GovProposalHeader.EndVotingHeight)", "no votes after the window", "a vote after the end of the window is accepted"},
-		{"voting:window-start", "(p0.Height < " + prop + ".GovProposalHeader.StartVotingHeight)", "no votes before the window", "a vote before the start of the window is accepted"},
+		{"voting:to-zero", AR(`^p0\.Tx\.To$`, "!=", `^types\.ZeroAddress\(\)$`), "a vote must be addressed to the zero address", "a vote addressed to a non-zero address passes validation"},
+		{"voting:payload-type", FR(`TrxPayloadVoting\)#1$`), "wrong payload type is refused", "a vote with a wrong payload type is not refused"},
+		{"voting:proposal-exists", AR(led+`.*`+VV+`\.TxHash\.Array32\(\)\)#1\)?$`, "!=", `^nil$`), "the proposal must exist in the exec-selected overlay", "a vote for a missing proposal is not refused"},
+		{"voting:is-voter", FR(prop + `\.IsVoter\(p0\.Tx\.From\)$`), "only validators recorded at submission may vote", "an account that is not among the proposal's recorded voters can vote"},
+		{"voting:choice-lower", AR(VV+`\.Choice$`, "<", `^0$`), "negative choice refused", "a negative choice is accepted"},
+		{"voting:choice-upper", AR(VV+`\.Choice$`, ">=", `^int32\(len\(.*`+prop+`\.Options\)\)$`), "choice must index an option", "a choice beyond the options is accepted"},
+		{"voting:window-end", AR(`^p0\.Height$`, ">", prop+`\.GovProposalHeader\.EndVotingHeight$`), "no votes after the window", "a vote after the end of the window is accepted"},
+		{"voting:window-start", AR(`^p0\.Height$`, "<", prop+`\.GovProposalHeader\.StartVotingHeight$`), "no votes before the window", "a vote before the start of the window is accepted"},
 	})
 	iv := needFn(r, "Gv-2", w, fref{pkgStake, "StakeCtrler", "IsValidator"})
 	if iv != nil {
